@@ -14,6 +14,13 @@ def _mods(pp):
     return Mod
 
 
+def _reload_mono(pp):
+    import os
+    from peptacular.mods import mod_db_setup as m
+    m.MONOSACCHARIDES_DB.reload_from_file(os.path.join(os.path.dirname(m.__file__), "..", "data", "monosaccharides_updated.obo"))
+    return len(m.MONOSACCHARIDES_DB)
+
+
 def table():
     T = {}
 
@@ -147,6 +154,10 @@ def table():
     q("create_multi_annotation")(lambda pp, a, x: pp.create_multi_annotation([a] + x["chains"], x["links"]))
     # a text is immutable, so with a text add_mods is a function of (text, dictionary): the dictionary is only read
     q("add_mods_text_dict")(lambda pp, a, x: pp.add_mods("PEPTIDE", x["moddict"]))
+    # the caller's Fragment object, iterated (what dict(fragment) and to_dict() do): the same items every time
+    q("fragment_iterated")(lambda pp, a, x: list(x["frags"][0]))
+    # reading a vocabulary again from the file it came from leaves it what it was (names, synonyms, masses)
+    q("reload_monosaccharides")(lambda pp, a, x: _reload_mono(pp))
     q("parse_text")(lambda pp, a, x: pp.parse("[Acetyl]-PEP[1]TIDE/2"))
     # ------------------------------------------------------------------ queries whose arguments are immutable texts:
     # their answers can only depend on hidden process-wide state (caches, lazily completed tables)
@@ -166,6 +177,7 @@ def table():
     q("t_fragment_text")(lambda pp, a, x: pp.fragment("PEM[Oxidation]K", ["b", "y"], 1, return_type="mass"))
     q("t_add_mods_text")(lambda pp, a, x: pp.add_mods("PEP[1]TIDE", {"nterm": "Acetyl", 0: "Oxidation"}))
     q("t_get_mods_text")(lambda pp, a, x: pp.get_mods("PEP[1]TIDE"))
+    q("t_glycan_synonym")(lambda pp, a, x: (pp.mod_mass("Glycan:NeuAc2dHex"), pp.glycan_comp("dHex")))
     q("t_digest_text")(lambda pp, a, x: pp.digest("PEKTIDERK", "trypsin", missed_cleavages=1))
     # ------------------------------------------------------------------ editors of the shared annotation
     e("pop_labile_mods")(lambda pp, a, x: a.pop_labile_mods())
